@@ -34,8 +34,14 @@ type ValOpts struct {
 	// (marshal-side properties only: unmarshaling cannot restore the dynamic type)
 	IfaceContainers bool
 	NoNaN           bool
-	Avoid           map[string]bool
-	Excluded        func(string)
+	// YearZero: now and then a time.Time in Go's astronomical year 0 (1 BC), which the format cannot express:
+	// only for checks that know the marshaler must refuse it
+	YearZero bool
+	// FieldsAlwaysWritten: struct fields are written even when empty (records write every declared field), so
+	// a nil map / slice field is a null in the document like in any other position
+	FieldsAlwaysWritten bool
+	Avoid               map[string]bool
+	Excluded            func(string)
 
 	inStructField bool // the value being drawn is directly a struct field (omitted when empty)
 }
@@ -281,6 +287,9 @@ func genTimeSpec(t *rapid.T, label string, o *ValOpts) *TimeSpec {
 	if ts.Time().Year() == 0 {
 		ts.Sec += 2 * 366 * 86400
 	}
+	if o.YearZero && rapid.IntRange(0, 11).Draw(t, label+".year0") == 0 {
+		ts.Sec = rapid.Int64Range(-62167219200+86400, -62135596800-86400).Draw(t, label+".year0sec")
+	}
 	return ts
 }
 
@@ -374,7 +383,7 @@ func GenVal(t *rapid.T, o *ValOpts, s *TypeSpec, depth int) *Val {
 	case "struct":
 		v := &Val{}
 		for _, f := range s.Fields {
-			o.inStructField = f.Type.K == "map" || f.Type.K == "slice"
+			o.inStructField = (f.Type.K == "map" || f.Type.K == "slice") && !o.FieldsAlwaysWritten
 			v.Elems = append(v.Elems, GenVal(t, o, f.Type, depth+1))
 			o.inStructField = false
 		}
